@@ -26,6 +26,9 @@ EXTRAS = [None, {"foo": ("str", False)}, {"foo": ("int", True)}, {"kid": ("str",
           {"foo": ("bool", True)}, {"foo": ("jwk", False)}]
 TMAP = {"str": RH.STR, "int": RH.INT, "list[str]": RH.LIST_STR, "bool": RH.BOOL, "jwk": RH.OBJ}
 GOOD = {"str": "x", "int": 7, "list[str]": ["a"], "bool": True, "jwk": {"kty": "oct", "k": "AA"}}
+# names that are algorithm-specific parameters of SOME key management algorithms, registered by the caller as its own for use with any algorithm
+BORROWED = [{"apu": ("str", False)}, {"skid": ("str", False)}]
+GOOD_BY_NAME = {"apu": "QWxpY2U", "skid": "sender-1"}
 
 
 def mk_registry(kind, path, strict, extra, algs):
@@ -187,7 +190,7 @@ def h_jwe(ctx):
     form = ctx.choose("form", ["compact", "flattened", "general"])
     direction = ctx.choose("direction", ["produce", "consume"])
     strict = ctx.choose("strict", [True, False])
-    extra = ctx.choose("caller_registered", [EXTRAS[0], EXTRAS[1], EXTRAS[2], EXTRAS[3]] if config.thorough() else [EXTRAS[0], EXTRAS[1], EXTRAS[3]])
+    extra = ctx.choose("caller_registered", ([EXTRAS[0], EXTRAS[1], EXTRAS[2], EXTRAS[3]] if config.thorough() else [EXTRAS[0], EXTRAS[1], EXTRAS[3]]) + BORROWED)
     t = c16.jwe_seed(alg, kind, enc, form)
     prot = dict(t["protected"])
     rhdr = dict(t["recipients"][0][0] or {})
@@ -199,8 +202,10 @@ def h_jwe(ctx):
             rhdr.pop(n, None)
     if extra:
         n, (ty, req) = next(iter(extra.items()))
+        if extra in BORROWED and n in RH.ALG_PARAMS.get(RH.family(alg) or "", {}):
+            return Outcome("n/a", [], nontrivial=None)      # for this algorithm the name is its own parameter, with a meaning of its own
         if ctx.choose("registered_param_given", [True, False]):
-            prot[n] = GOOD[ty]
+            prot[n] = GOOD_BY_NAME.get(n, GOOD[ty])
         elif n in prot:
             prot.pop(n)
     positions = ["protected"] + (["unprotected", "recipient"] if form != "compact" else [])
